@@ -63,7 +63,10 @@ MODELS = {
     "arm-linux": ("WalkerArm", "MC_WalkerArm_arm_linux", ["arm", "linux"]),
     "arm64": ("WalkerArm", "MC_WalkerArm_arm64_linux", ["arm64", "linux"]),
     "arm64old": ("WalkerArm", "MC_WalkerArm_arm64_linux", ["arm64old", "linux"]),
+    "mips32": ("WalkerMips", "MC_WalkerMips_32", ["mips"]),
+    "mips64": ("WalkerMips", "MC_WalkerMips_64", ["mips64"]),
 }
+NO_FP_TECHNIQUE = ("arm-linux", "mips32", "mips64")
 
 
 def run_model_arch(ctx, arch, mode_cfg, built, reuse=None):
@@ -99,12 +102,12 @@ def run(ctx):
     others = {}
     traces = []
     last64 = None
-    for arch in ("x86", "arm-ios", "arm-linux", "arm64", "arm64old"):
+    for arch in ("x86", "arm-ios", "arm-linux", "arm64", "arm64old", "mips32", "mips64"):
         mc2, rep2, trace2 = run_model_arch(ctx, arch, None, False, reuse=last64 if arch == "arm64old" else None)
         if arch == "arm64":
             last64 = mc2
         for a in WALK_ACTIONS:
-            if a != "StopBound" and mc2.coverage.get(a, (0, 0))[1] == 0 and not (a == "StepFp" and arch == "arm-linux"):
+            if a != "StopBound" and mc2.coverage.get(a, (0, 0))[1] == 0 and not (a == "StepFp" and arch in NO_FP_TECHNIQUE):
                 raise core.ToolFailure("vacuous: action %s of %s never taken (%s)" % (a, MODELS[arch][0], arch))
         for need in ("frame:cfi", "frame:scan"):
             if rep2["classes"].get(need, 0) == 0:
@@ -146,7 +149,7 @@ def run(ctx):
         "traces_validated_against_impl": rep["evaluations"] + tvv["total"] + sum(o["replayed"] for o in others.values()),
         "samples": samples, "exhaustive": False,
         "evaluations": rep["evaluations"] + tvv["total"] + sum(o["replayed"] for o in others.values()), "distinct_nontrivial": rep["distinct_nontrivial"],
-        "rule": "amd64, x86 (STACK WIN frame data / FPO / STACK CFI, grand-callee parameter sizes), arm (iOS and Linux), arm64 and arm64-old models: every stack of NW words over the "
+        "rule": "amd64, x86 (STACK WIN frame data / FPO / STACK CFI, grand-callee parameter sizes), arm (iOS and Linux), arm64, arm64-old, mips o32 and mips64 models: every stack of NW words over the "
                 "candidate values x contexts x unwind rule shapes walked by the real walk_stack and compared frame by frame with the model: return address, sp, technique, "
                 "callee-saved register validity and values, parameter size (non-trivial = instance with at least one recovered caller); all architectures: seeded random "
                 "contexts / stack bytes / modules / symbol text, monitors evaluated by Trace_Walk on every call stack",
@@ -155,7 +158,7 @@ def run(ctx):
     }
     return ctx.finish("model_checking", cov, assumptions=[
         "C05 monitors as stated in Trace_Walk.tla; call adjustments 1 (x86, amd64), 2 (arm), 4 (arm64), 8 (mips); sp may repeat between the first two frames on arm / arm64 / mips only",
-        "step-by-step models exist for amd64 (non-Windows), x86, arm and arm64 (both layouts); mips is decided by the monitors on recorded walks only",
+        "step-by-step models exist for amd64 (non-Windows), x86, arm, arm64 (both layouts) and mips (o32 and 64-bit)",
         "WalkerX86 mirrors the no-op STACK WIN register clear (finding recorded under C07) so that exact agreement can be demanded",
         "the frame bound is C03's subject and not judged here"])
 
